@@ -178,21 +178,30 @@ class PoolSelection:
                 if h is None or h.path == swap.path or h.body is None or h.body.back_edges() or not common._effect_free(P, h, 0):
                     continue
                 cv = P.val_call(swap, body, b)
-                ai = [i for i, a in enumerate(cv[4]) if set(ctx.roots(a)) == offer_info]
+                offer_asset = {x[:-5] for x in offer_info if x.endswith(".info")}
+                ai = [(i, "") for i, a in enumerate(cv[4]) if set(ctx.roots(a)) == offer_info]
+                if not ai and offer_asset:
+                    ai = [(i, ".info") for i, a in enumerate(cv[4]) if set(ctx.roots(a)) == offer_asset]      # the whole offer asset is handed over
                 pi = [i for i, a in enumerate(cv[4]) if set(ctx.roots(a)) == {QP}]
                 if len(ai) != 1 or len(pi) != 1:
                     continue
                 try:
-                    inner = PoolSelection(ctx, h, None, P_(h, pi[0]), offer_info={P_(h, ai[0])}, allow_helper=False)
+                    inner = PoolSelection(ctx, h, None, P_(h, pi[0]), offer_info={P_(h, ai[0][0], ai[0][1])}, allow_helper=False)
                 except AnchorMissing:
                     continue
                 if inner.form != "branch":
                     continue
                 rets = {}
+                all_oks = [(eb, i_, v) for (eb, i_, cls, v) in common.exit_sites(P, h) if cls != "err"]
                 for k in (0, 1):
-                    oks = [(eb, v) for (eb, i_, cls, v) in common.exit_sites(P, h) if cls != "err" and eb in inner.regions[k]]
+                    oks = [(eb, v) for (eb, i_, v) in all_oks if eb in inner.regions[k]]
                     if len(oks) == 1:
                         rets[k] = oks[0][1]
+                    elif not oks and len(all_oks) == 1:
+                        # one success exit after the branches merged: its value along the paths through branch k
+                        eb, i_, v_ = all_oks[0]
+                        if i_ < len(h.body.blocks[eb]["stmts"]) and h.body.blocks[eb]["stmts"][i_]["k"] == "assign":
+                            rets[k] = P.val_rvalue_in(h, (eb, i_), h.body.blocks[eb]["stmts"][i_]["rv"], inner.regions[k])
                 if sorted(rets) == [0, 1]:
                     cands.append((b, h, cv, inner, rets))
             if len(cands) == 1:
